@@ -5,9 +5,14 @@ package main
 import (
 	"bytes"
 	"fmt"
+	"math"
 	"math/rand"
 	"os"
 	"reflect"
+	"strings"
+	"sync"
+
+	"github.com/lugu/qiloop/meta/signature"
 
 	"github.com/lugu/qiloop/type/encoding"
 	"github.com/lugu/qiloop/type/value"
@@ -51,11 +56,102 @@ func cmdC02(args []string) {
 		sh := dynShape(v.T, v.V)
 		shapes[sh]++
 		c02Vector(res, v, sh, distinct)
+		if len(c02Held) >= 64 || i == len(vf.V)-1 {
+			c02CheckHeld(res)
+		}
 	}
+	// the same encodings served with the last bytes and io.EOF in one Read
+	inDataEOF = true
+	for i := range vf.V {
+		v := &vf.V[i]
+		c02Vector(res, v, dynShape(v.T, v.V), distinct)
+		c02Held = c02Held[:0]
+	}
+	inDataEOF = false
+	c02Concurrent(res, vf)
 	res.Distinct = len(distinct)
 	res.SetExtra("vectors", len(vf.V))
 	res.SetExtra("shapes", shapes)
+	res.SetExtra("held_values_rechecked", c02Rechecked)
 	emit(res)
+}
+
+// Decoding is a function of the bytes: a decoded value must not change when other values are decoded
+// afterwards (or concurrently).  Decoded values are held and re-encoded later.
+type heldValue struct {
+	val value.Value
+	enc []byte
+	v   *Vector
+	sh  string
+}
+
+var (
+	c02Held      []heldValue
+	c02Rechecked int
+)
+
+func c02CheckHeld(res *hlib.Result) {
+	for _, h := range c02Held {
+		c02Rechecked++
+		res.Evaluations++
+		var buf bytes.Buffer
+		var werr error
+		if p := guard(func() { werr = h.val.Write(&buf) }); p != nil || werr != nil || !bytes.Equal(buf.Bytes(), h.enc) {
+			res.Fail("value/changed-after-later-decodes/"+h.sh,
+				fmt.Sprintf("a value decoded earlier re-encodes to %v after other values were decoded; its encoding is %v", buf.Bytes(), h.enc),
+				mkCase(h.v, h.enc, h.sh))
+		}
+	}
+	c02Held = c02Held[:0]
+}
+
+// c02Concurrent: four goroutines decode every 5th vector at the same time, hold the values and
+// re-encode them at the end.
+func c02Concurrent(res *hlib.Result, vf *vecFile) {
+	type item struct {
+		h   heldValue
+		err string
+	}
+	const workers = 4
+	out := make([][]item, workers)
+	var wg sync.WaitGroup
+	for w := 0; w < workers; w++ {
+		wg.Add(1)
+		go func(w int) {
+			defer wg.Done()
+			for i := w; i < len(vf.V); i += 5 {
+				v := &vf.V[i]
+				enc := cat(toBytes(v.Vprefix), toBytes(v.Encs[0]))
+				var got interface{}
+				var derr error
+				if p := guard(func() { got, _, derr = decValue(enc) }); p != nil || derr != nil {
+					continue // reported by the sequential pass
+				}
+				if val, _ := got.(value.Value); val != nil {
+					var buf bytes.Buffer
+					var werr error
+					if p := guard(func() { werr = val.Write(&buf) }); p != nil || werr != nil || !bytes.Equal(buf.Bytes(), enc) {
+						continue // not re-encodable in the first place: the sequential pass reports it
+					}
+					out[w] = append(out[w], item{h: heldValue{val: val, enc: enc, v: v, sh: dynShape(v.T, v.V)}})
+				}
+			}
+		}(w)
+	}
+	wg.Wait()
+	for w := range out {
+		for _, it := range out[w] {
+			c02Rechecked++
+			res.Evaluations++
+			var buf bytes.Buffer
+			var werr error
+			if p := guard(func() { werr = it.h.val.Write(&buf) }); p != nil || werr != nil || !bytes.Equal(buf.Bytes(), it.h.enc) {
+				res.Fail("value/changed-by-concurrent-decodes/"+it.h.sh,
+					fmt.Sprintf("a value decoded while other goroutines decode re-encodes to %v; its encoding is %v", buf.Bytes(), it.h.enc),
+					mkCase(it.h.v, it.h.enc, it.h.sh))
+			}
+		}
+	}
 }
 
 func c02Vector(res *hlib.Result, v *Vector, sh string, distinct map[string]bool) {
@@ -97,6 +193,9 @@ func c02Vector(res *hlib.Result, v *Vector, sh string, distinct map[string]bool)
 	for ei, e := range v.Encs {
 		enc := cat(prefix, toBytes(e))
 		for _, tail := range tails {
+			if inDataEOF && len(tail) > 0 {
+				continue
+			}
 			res.Evaluations++
 			in := cat(enc, tail)
 			distinct[string(in)] = true
@@ -126,6 +225,9 @@ func c02Vector(res *hlib.Result, v *Vector, sh string, distinct map[string]bool)
 			if p := guard(func() { werr = val.Write(&buf) }); p != nil {
 				res.Fail("value/rewrite-panic/"+sh, fmt.Sprint(p), mkCase(v, in, sh))
 				continue
+			}
+			if werr == nil && bytes.Equal(buf.Bytes(), enc) && ei == 0 && len(tail) == 0 && !inDataEOF {
+				c02Held = append(c02Held, heldValue{val: val, enc: enc, v: v, sh: sh})
 			}
 			if werr != nil {
 				res.Fail("value/rewrite-error/"+sh, werr.Error(), mkCase(v, in, sh))
@@ -181,6 +283,7 @@ func cmdC03(args []string) {
 	res.SetExtra("vectors", len(vf.V))
 	res.SetExtra("shapes", shapes)
 	res.SetExtra("generated_codecs_agree", agree)
+	res.SetExtra("decode_into_library_go_type", c03TypedStats)
 	emit(res)
 }
 
@@ -299,9 +402,162 @@ func c03Vector(res *hlib.Result, v *Vector, sh string, distinct map[string]bool,
 			}
 		}
 	}
+	// (4) the Go representation the library itself derives from the signature (Type.Type(), what a proxy
+	// decodes a remote value into): the reflection decoder must recover the same value in it - same scalar
+	// kinds, same numbers - and the reflection encoder must give the documented bytes back
+	c03Typed(res, v, sh, sig, gv, canon)
 	if len(res.Samples) < 3 && len(canon) > 10 {
 		res.Sample(map[string]interface{}{"sig": sig, "value": fmt.Sprintf("%#v", gv.Interface()), "bytes": canon})
 	}
+}
+
+var c03TypedStats = map[string]int{}
+
+func c03Typed(res *hlib.Result, v *Vector, sh, sig string, gv reflect.Value, canon []byte) {
+	var typ reflect.Type
+	if p := guard(func() {
+		t, err := signature.Parse(sig)
+		if err == nil {
+			typ = t.Type()
+		}
+	}); p != nil || typ == nil {
+		c03TypedStats["no-go-type"]++ // Parse / Type() failing is C09's subject
+		return
+	}
+	res.Evaluations++
+	var got interface{}
+	var unread int
+	var derr error
+	if p := guard(func() { got, unread, derr = decReflect(typ)(canon) }); p != nil {
+		c03TypedStats["decode-panic"]++
+		res.Fail("typed-decode/panic/"+sh, fmt.Sprint(p), mkCase(v, canon, sh))
+		return
+	}
+	if (derr != nil || unread != 0) && strings.Contains(typ.String(), "*interface {}") {
+		// the library's Go type of a dynamic value is a POINTER to an interface, which the reflection
+		// decoder neither fills nor refuses: one class, whatever the surrounding type
+		c03TypedStats["dynamic-value-slot"]++
+		res.Fail("typed-decode/dynamic-value-slot", fmt.Sprintf("decoding into %v: unread %d, err %v", typ, unread, derr), mkCase(v, canon, sh))
+		return
+	}
+	if derr != nil || unread != 0 {
+		c03TypedStats["decode-error"]++
+		res.Fail("typed-decode/error/"+sh, fmt.Sprintf("decoding into %v: unread %d, err %v", typ, unread, derr), mkCase(v, canon, sh))
+		return
+	}
+	gotv := got.(reflect.Value)
+	if why := diffLoose(gotv, gv, "value"); why != "" {
+		c03TypedStats["value-differs"]++
+		res.Fail("typed-decode/value/"+sh, fmt.Sprintf("decoded into %v: %s", typ, why), mkCase(v, canon, sh))
+		return
+	}
+	var buf bytes.Buffer
+	var eerr error
+	if p := guard(func() { eerr = encoding.NewEncoder(encoding.DefaultCap(), &buf).Encode(gotv.Interface()) }); p != nil || eerr != nil || !inSet(buf.Bytes(), v.Encs) {
+		c03TypedStats["reencode-differs"]++
+		res.Fail("typed-decode/reencode/"+sh, fmt.Sprintf("the value decoded into %v re-encodes to %v (err %v), documented %v", typ, buf.Bytes(), eerr, canon), mkCase(v, canon, sh))
+		return
+	}
+	c03TypedStats["ok"]++
+}
+
+// diffLoose compares a value decoded into the library's own Go type with the expected one built by
+// the harness: struct types may differ in name, everything else - kinds of scalars, numbers, lengths,
+// keys, field order - must agree.  Returns "" or the first difference.
+func diffLoose(a, b reflect.Value, path string) string {
+	for a.IsValid() && a.Kind() == reflect.Interface && !a.IsNil() && b.IsValid() && b.Kind() != reflect.Interface {
+		a = a.Elem()
+	}
+	if !a.IsValid() || !b.IsValid() {
+		if a.IsValid() != b.IsValid() {
+			return path + ": one side is missing"
+		}
+		return ""
+	}
+	if a.Kind() != b.Kind() {
+		return fmt.Sprintf("%s: Go kind %v, expected %v", path, a.Kind(), b.Kind())
+	}
+	switch a.Kind() {
+	case reflect.Slice:
+		if a.Len() != b.Len() {
+			return fmt.Sprintf("%s: %d elements, expected %d", path, a.Len(), b.Len())
+		}
+		for i := 0; i < a.Len(); i++ {
+			if d := diffLoose(a.Index(i), b.Index(i), fmt.Sprintf("%s[%d]", path, i)); d != "" {
+				return d
+			}
+		}
+		return ""
+	case reflect.Map:
+		if a.Len() != b.Len() {
+			return fmt.Sprintf("%s: %d entries, expected %d", path, a.Len(), b.Len())
+		}
+		it := b.MapRange()
+		for it.Next() {
+			found := false
+			jt := a.MapRange()
+			for jt.Next() {
+				if diffLoose(jt.Key(), it.Key(), "") == "" {
+					if d := diffLoose(jt.Value(), it.Value(), fmt.Sprintf("%s[%v]", path, it.Key().Interface())); d != "" {
+						return d
+					}
+					found = true
+					break
+				}
+			}
+			if !found {
+				return fmt.Sprintf("%s: key %v missing", path, it.Key().Interface())
+			}
+		}
+		return ""
+	case reflect.Struct:
+		if a.NumField() != b.NumField() {
+			return fmt.Sprintf("%s: %d fields, expected %d", path, a.NumField(), b.NumField())
+		}
+		for i := 0; i < a.NumField(); i++ {
+			if d := diffLoose(a.Field(i), b.Field(i), fmt.Sprintf("%s.%d", path, i)); d != "" {
+				return d
+			}
+		}
+		return ""
+	case reflect.Interface:
+		if a.IsNil() || b.IsNil() {
+			if a.IsNil() != b.IsNil() {
+				return path + ": nil dynamic value"
+			}
+			return ""
+		}
+		if !eqDyn(a.Interface(), b.Interface()) {
+			return fmt.Sprintf("%s: dynamic value %#v, expected %#v", path, a.Interface(), b.Interface())
+		}
+		return ""
+	case reflect.Float32, reflect.Float64:
+		if math.Float64bits(a.Float()) != math.Float64bits(b.Float()) {
+			return fmt.Sprintf("%s: %v, expected %v", path, a.Float(), b.Float())
+		}
+		return ""
+	case reflect.Bool:
+		if a.Bool() != b.Bool() {
+			return fmt.Sprintf("%s: %v, expected %v", path, a.Bool(), b.Bool())
+		}
+		return ""
+	case reflect.String:
+		if a.String() != b.String() {
+			return fmt.Sprintf("%s: %q, expected %q", path, a.String(), b.String())
+		}
+		return ""
+	case reflect.Int, reflect.Int8, reflect.Int16, reflect.Int32, reflect.Int64:
+		if a.Int() != b.Int() {
+			return fmt.Sprintf("%s: %d, expected %d", path, a.Int(), b.Int())
+		}
+		return ""
+	case reflect.Uint, reflect.Uint8, reflect.Uint16, reflect.Uint32, reflect.Uint64:
+		if a.Uint() != b.Uint() {
+			return fmt.Sprintf("%s: %d, expected %d", path, a.Uint(), b.Uint())
+		}
+		return ""
+	}
+	return ""
 }
 
 func typeHasM(t *TypeTree) bool {
@@ -396,22 +652,37 @@ func c08Prefixes(res *hlib.Result, v *Vector, d namedDecoder, enc []byte, sh str
 		distinct[key] = true
 		res.Evaluations++
 		per[d.name]++
-		var derr error
 		kk := k
-		if p := guard(func() { _, _, derr = d.fn(enc[:kk]) }); p != nil {
-			c := mkCase(v, enc[:k], sh)
-			c.Cut = &kk
-			res.Fail(d.name+"/prefix-panic/"+sh, fmt.Sprint(p), c)
-			continue
-		}
-		if derr == nil {
-			c := mkCase(v, enc[:k], sh)
-			c.Cut = &kk
-			c.Note = fmt.Sprintf("complete encoding has %d bytes", len(enc))
-			res.Fail(d.name+"/prefix-accepted/"+sh,
-				fmt.Sprintf("%d of %d bytes decoded without error", k, len(enc)), c)
-			if len(res.Samples) < 2 {
-				res.Sample(c)
+		// twice: end of input reported by a separate Read, and together with the last bytes
+		for _, dataEOF := range []bool{false, true} {
+			if dataEOF && k == 0 {
+				continue
+			}
+			var derr error
+			inDataEOF = dataEOF
+			p := guard(func() { _, _, derr = d.fn(enc[:kk]) })
+			inDataEOF = false
+			mode := ""
+			if dataEOF {
+				mode = "+data-with-eof"
+				per[d.name+"/data-with-eof"]++
+			}
+			if p != nil {
+				c := mkCase(v, enc[:k], sh)
+				c.Cut = &kk
+				res.Fail(d.name+"/prefix-panic/"+sh+mode, fmt.Sprint(p), c)
+				break
+			}
+			if derr == nil {
+				c := mkCase(v, enc[:k], sh)
+				c.Cut = &kk
+				c.Note = fmt.Sprintf("complete encoding has %d bytes", len(enc))
+				res.Fail(d.name+"/prefix-accepted/"+sh+mode,
+					fmt.Sprintf("%d of %d bytes decoded without error", k, len(enc)), c)
+				if len(res.Samples) < 2 {
+					res.Sample(c)
+				}
+				break
 			}
 		}
 	}
